@@ -17,4 +17,27 @@ CHECKS = {
             {"pkg": "thriftw", "run": "^TestC05Thrift(Binary|Struct)$", "quick": 300, "thorough": 24000, "shards_thorough": 4},
         ],
     },
+    "C01": {
+        "level": "exploration",
+        "assumptions": ["interleavings are those the Go scheduler produces under the generated load and read chunking; no schedule is forced inside pack/unpack"],
+        "runs": [
+            {"pkg": "core", "run": "^TestC01CrossTalk$", "quick": 400, "thorough": 12000, "shards_thorough": 8},
+        ],
+    },
+    "C11": {
+        "level": "exploration",
+        "assumptions": ["encoding/json, encoding/xml, gogo/protobuf and apache thrift define the supported value domain of their codecs (valid UTF-8, finite floats for JSON, XML-valid characters)"],
+        "runs": [
+            {"pkg": "pure", "run": "^TestC11(RoundTrip|Garbage)$", "quick": 4000, "thorough": 200000, "shards_thorough": 8},
+        ],
+    },
+    "C12": {
+        "level": "fault_enumeration",
+        "assumptions": ["compress/gzip and crypto/md5 are trusted; corruption = xor of one byte of the packed payload"],
+        "runs": [
+            {"pkg": "pure", "run": "^TestC12(Invert|Unregistered)$", "quick": 1500, "thorough": 60000, "shards_thorough": 6},
+            {"pkg": "pure", "run": "^TestC12Corruption$", "quick": 150, "thorough": 4000, "shards_thorough": 4},
+            {"pkg": "pure", "run": "^TestC12CorruptionExhaustive$", "quick": 1, "thorough": 1, "only": "thorough", "rapid": False},
+        ],
+    },
 }
